@@ -249,7 +249,17 @@ func (p *parser) parseExpression(rbp int) Node {
 	}
 
 	t := p.token
-	p.advance(false)
+
+	// After a value (a name, a literal, a wildcard...) a forward
+	// slash is the division operator. After a prefix operator or
+	// an opening bracket another operand is expected, so a forward
+	// slash starts a regular expression.
+	switch t.Type {
+	case typeBracketOpen, typeBraceOpen, typeParenOpen, typeMinus, typePipe:
+		p.advance(true)
+	default:
+		p.advance(false)
+	}
 
 	nud := p.lookupNud(t.Type)
 	if nud == nil {
